@@ -81,7 +81,16 @@ pub fn check(s: &Scenario) -> CheckResult {
                 ma_first = true;
                 last_t = None;
             }
-            Ev::A => {}
+            Ev::A => {
+                // no new sample: the samples in the window, and so the averages, are what they were
+                if i > 0 && matches!(s.events[i - 1], Ev::P(..) | Ev::A) {
+                    for (name, outs) in [("moving average", ma_f), ("EWMA", ewma_f)] {
+                        if matches!(outs[i - 1], Obs::Some(..)) {
+                            ensure!(outs[i].same(&outs[i - 1]), "C12/absent-holds", "event {} is an absent input: the {} output went from {:?} to {:?} although no sample arrived; history {:?}", i, name, outs[i - 1], outs[i], &s.events[..=i]);
+                        }
+                    }
+                }
+            }
             Ev::P(x, _) => {
                 let now = times[i];
                 if let Some(l) = last_t {
@@ -176,7 +185,7 @@ pub fn check(s: &Scenario) -> CheckResult {
 pub struct C12;
 impl Property for C12 {
     const ID: &'static str = "C12";
-    const RULE: &'static str = "random histories of 0..64 events (present sample with non-decreasing timestamp: dt = 0 with probability 0.2 else log-uniform 1 ns..3 h; absent; Err), window log-uniform 1 ns..3 h, smoothing in [0,1] incl. both ends, moderate values; each history is run on the f32 and Quantity variants of both filters. Oracle: time-weighted window average (weights >= 0 summing exactly to the window, asserted on the i64 reference) and prev*(1-L)+new*L with L = 1-(1-s)^dt in f64 with a running f32 error bound (|out - ref| <= 4e), convexity (output within [min,max] of contributing samples +- bound), first sample returned unchanged, f32 == Quantity variant, no panic on any update. Non-trivial = >= 3 samples inside one window with unequal spacing, or a repeated timestamp, or a window shorter than one step; distinct = (event kinds, window, smoothing, end time).";
+    const RULE: &'static str = "random histories of 0..64 events (present sample with non-decreasing timestamp: dt = 0 with probability 0.2 else log-uniform 1 ns..3 h; absent; Err), window log-uniform 1 ns..3 h, smoothing in [0,1] incl. both ends, moderate values; each history is run on the f32 and Quantity variants of both filters. Oracle: time-weighted window average (weights >= 0 summing exactly to the window, asserted on the i64 reference) and prev*(1-L)+new*L with L = 1-(1-s)^dt in f64 with a running f32 error bound (|out - ref| <= 4e), convexity (output within [min,max] of contributing samples +- bound), first sample returned unchanged, an absent input leaves both averages bit-identical, f32 == Quantity variant, no panic on any update. Non-trivial = >= 3 samples inside one window with unequal spacing, or a repeated timestamp, or a window shorter than one step; distinct = (event kinds, window, smoothing, end time).";
     type Scenario = Scenario;
     fn strategy(_tier: Tier) -> BoxedStrategy<Scenario> {
         let dt = prop_oneof![2 => Just(0i64), 6 => gen::log_ns(1, 10_800_000_000_000), 2 => gen::special_ns(1, 10_800_000_000_000)].boxed();
